@@ -243,6 +243,14 @@ func runC10(s *spec.Spec, logPath string) {
 	}
 	simrt.Solo = true
 	simrt.SoloFail = func(class, key string, d map[string]string) { c.fail(class, key, d) }
+	if len(s.Lookups) >= 40 {
+		// volume fault: a long session - tens to hundreds of lookups in one process, every one of them checked
+		probesC["long_session_runs"]++
+		probesC["lookups_in_long_sessions"] += uint64(len(s.Lookups))
+		if len(s.Lookups) > 128 {
+			probesC["long_session_over_128_lookups"]++
+		}
+	}
 	for i, lk := range s.Lookups {
 		c.lookup(i, lk)
 	}
